@@ -324,6 +324,7 @@ def run_shard(ctx, spec):
             attach.call(mon.N, m)
             ctx.count('eval.lookalike-spelling')
     for s in ['\u00b2', '10\u00b2', '\u00b9\u2070\u2070', '\u2460', '4\u2070\u2070', '\u2167', '\u00bd', '\u0661\u0660\u0660', '\uff11\uff10\uff10',
+              '100%', '%s', '4x%d', 'DT%(w)s', '{0}', 'SP{}K', '\\', '$1', 'HJ%', '%', '100{', 'JT}', '(HJ', '[SP]', '100|200',
               '', ' ', 'X', '100X', 'H0', 'L0', 'DTT', '4x', 'x100', '100 m', 'HJJ', 'SP7.26KGG', 'JT900', 'None', '\n', 'DEC\n\n']:
         attach.call(mon.N, s)
     ctx.require('judged.closure', 500)
